@@ -168,6 +168,11 @@ static const profile_t profiles[] = {
   /* P9g: hardened builds: a small size class whose pages start behind a gap at the beginning of their slice; start state S8 leaves
      the page's free list empty, so the next allocation takes the most recently released block (and reads its link) */
   { .name = "P9g", .msizes = { 40 }, .nm = 1, .faults = 1, .collect1 = 1, .maxlive = 120, .free_window = 2 },
+  /* P8h: huge blocks that span several arena blocks (40 MiB = 2, 100 MiB = 4): claims that re-use committed blocks together with
+     never committed ones */
+  { .name = "P8h", .msizes = { 40 * MiB, 100 * MiB }, .nm = 2, .collect1 = 1, .ticks = { 1000 }, .nt = 1, .maxlive = 2, .free_window = 2 },
+  /* P8f: a full segment of 1 MiB pages (start state S10): release / re-use / purge at its far end */
+  { .name = "P8f", .msizes = { 1 * MiB }, .nm = 1, .collect0 = 1, .collect1 = 1, .ticks = { 1000 }, .nt = 1, .maxlive = 40, .free_window = 4 },
   /* P8o: option sweep profile (C13): merged alphabet incl. clock ticks */
   { .name = "P8o", .msizes = { 8 * KiB, 64 * KiB, 1 * MiB, 17 * MiB }, .nm = 4, .zsizes = { 8 * KiB }, .nz = 1, .rsizes = { 100 * KiB }, .nr = 1,
     .collect0 = 1, .collect1 = 1, .ticks = { 1000 }, .nt = 1, .maxlive = 5, .free_window = 5 },
@@ -871,6 +876,17 @@ static int build_start(const char* s) {
       if (do_op(OP_MALLOC, (long)sizeof(mi_heap_t), 0)) return 1;
       mi_page_t* pg = _mi_ptr_page(vf_live[vf_nlive - 1].p);
       if (pg->free == NULL) { if (do_op(OP_FREE, vf_nlive - 1, 0)) return 1; break; }   /* hand the last one back: it becomes the descriptor */
+    }
+    return 0;
+  }
+  if (strcmp(s, "S10") == 0) {
+    /* one segment filled to its end with 1 MiB pages (the last pages use the last field of the segment's commit / purge masks) */
+    const mi_segment_t* seg0 = NULL;
+    for (int k = 0; k < 40; k++) {
+      if (do_op(OP_MALLOC, 1 * MiB, 0)) return 1;
+      const mi_segment_t* sg = _mi_ptr_segment(vf_live[vf_nlive - 1].p);
+      if (seg0 == NULL) seg0 = sg;
+      if (sg != seg0) { if (do_op(OP_FREE, vf_nlive - 1, 0)) return 1; break; }
     }
     return 0;
   }
